@@ -85,6 +85,31 @@ def selftest(ctx, trace, kd):
         raise lib.ToolError(f"binding self-test failed: {res}")
 
 
+def impl_model(ctx):
+    """Code-shaped model LruImpl.tla (slots / free list / linked list / checkpoint file): TLC explores its COMPLETE state
+    space (no depth bound) and checks that it refines the textbook operations of Lru.tla and never leaks a slot;
+    the pinned (pre-fix) variants must be refuted (regenerates the F17a / F17b counterexamples, anti-vacuity)."""
+    invs = ["TypeOK", "WalkTerminates", "WalkIsKeymap", "NoSlotLeaked", "FreeDisjoint"]
+    props = ["RefinesTouch", "RefinesRemove", "RefinesEvict", "RefinesLoad"]
+    out = {}
+    for cap, variant, expect in [(1, "{}", False), (2, "{}", False), (3, "{}", False)] + ([] if ctx.quick else [(4, "{}", False)]) + \
+                                [(2, '{"evict_leaks"}', True), (2, '{"zero_is_empty"}', True)]:
+        cfg = ctx.path(f"lruimpl_{cap}_{len(out)}.cfg")
+        lib.write_cfg(cfg, {"Cap": cap, "Keys": '{"a", "b", "c", "z"}', "ZKey": '"z"', "Variant": variant}, None, None,
+                      specification="Spec", invariants=invs, properties=props)
+        r = lib.tlc(ctx, "LruImpl", cfg, timeout=1500, workers=min(lib.NCPU, 8), expect_violation=True)
+        refuted = bool(r["invariant_violated"]) or r["property_violated"]
+        out[f"Cap={cap} Variant={variant}"] = {"distinct_states": r["distinct"], "refuted": refuted}
+        if not expect:
+            ctx.cov["states"] += r["distinct"]
+            ctx.cov["transitions"] += r["generated"]
+        if refuted != expect:
+            raise lib.ToolError(f"LruImpl Cap={cap} Variant={variant}: refuted={refuted}, expected {expect} - the code-shaped model no longer "
+                                "matches its specification (model or spec out of date)")
+    ctx.cov["impl_model"] = out
+    ctx.stage("impl-model", **{k.replace(" ", "_"): v["distinct_states"] for k, v in out.items()})
+
+
 def run(ctx):
     kd = lib.known_ids(ctx, "C17")
     lib.build(["drv_lru"])
@@ -96,6 +121,7 @@ def run(ctx):
     else:
         plan = [("mem", 0, 4), ("mem", 1, 5), ("mem", 2, 6), ("mem", 3, 6), ("disk", 0, 4), ("disk", 1, 5), ("disk", 2, 5), ("disk", 3, 5)]
         nrand, rlen = 3000, 300
+    impl_model(ctx)
     total_programs = 0
     distinct = 0
     first_trace = None
